@@ -1131,6 +1131,11 @@ class Executor:
             ast.copy_location(out, st)
             ast.fix_missing_locations(out)
             out._orig = st
+        elif isinstance(st.test, ast.Constant) and st.test.value is True and len(st.body) > 2:
+            # `while True: a = PURE; ...; if T(a): break; REST`  ->  `while not T(PURE): a = PURE; ...; REST`
+            # (the test sits in the middle of the body behind pure single assignments to fresh locals that are not
+            # read after the loop; the assigned expressions are substituted into the test)
+            out = self._canon_mid_test(st, frame) or st
         w = out
 
         def own_jumps(stmts):
@@ -1179,6 +1184,80 @@ class Executor:
                     ast.fix_missing_locations(out)
                     out._orig = st
         cache[id(st)] = out
+        return out
+
+    _PURE_METHODS = {"argmax", "argmin", "max", "min", "sum", "any", "all", "mean", "copy", "item"}
+    _PURE_BUILTINS = {"len", "max", "min", "int", "float", "abs", "bool"}
+
+    def _pure_expr(self, e):
+        for n in ast.walk(e):
+            if isinstance(n, (ast.NamedExpr, ast.Await, ast.Yield, ast.YieldFrom, ast.Lambda, ast.ListComp, ast.SetComp, ast.DictComp, ast.GeneratorExp, ast.Starred)):
+                return False
+            if isinstance(n, ast.Call):
+                f = n.func
+                if isinstance(f, ast.Name):
+                    if f.id not in self._PURE_BUILTINS:
+                        return False
+                elif isinstance(f, ast.Attribute):
+                    if isinstance(f.value, ast.Name) and f.value.id in ("np", "numpy"):
+                        if f.attr not in ("argmax", "argmin", "max", "min", "amax", "amin", "any", "all", "sum", "nanmax", "nanargmax"):
+                            return False
+                    elif f.attr not in self._PURE_METHODS:
+                        return False
+                else:
+                    return False
+                if any(k.arg == "out" for k in n.keywords):
+                    return False
+        return True
+
+    def _canon_mid_test(self, st, frame):
+        k = None
+        for j, x in enumerate(st.body):
+            if isinstance(x, ast.If) and not x.orelse and len(x.body) == 1 and isinstance(x.body[0], ast.Break):
+                k = j
+                break
+            if not (isinstance(x, ast.Assign) and len(x.targets) == 1 and isinstance(x.targets[0], ast.Name) and self._pure_expr(x.value)):
+                return None
+        if k is None or k == 0 or k == len(st.body) - 1:
+            return None
+        pre = st.body[:k]
+        names = [x.targets[0].id for x in pre]
+        if len(set(names)) != len(names):
+            return None
+        # the prefix runs once more in the original (in the iteration that breaks): its names must be dead after the loop
+        # and must not be read by the prefix itself before they are assigned (no loop-carried use)
+        fn = frame.func.node if frame.func is not None else None
+        end = getattr(st, "end_lineno", None)
+        if fn is None or end is None:
+            return None
+        for n in ast.walk(fn):
+            if isinstance(n, ast.Name) and n.id in names and isinstance(n.ctx, ast.Load) and getattr(n, "lineno", 0) > end:
+                return None
+        seen = set()
+        for x in pre:
+            if any(isinstance(n, ast.Name) and n.id in names and n.id not in seen for n in ast.walk(x.value)):
+                return None
+            seen.add(x.targets[0].id)
+        # the rest of the body must not assign the names again before the next test (they would still be fresh: the
+        # prefix re-assigns them) - nothing to check; substitute the prefix into the test
+        import copy
+
+        env = {}
+
+        class Sub(ast.NodeTransformer):
+            def visit_Name(self_, n):
+                if isinstance(n.ctx, ast.Load) and n.id in env:
+                    return copy.deepcopy(env[n.id])
+                return n
+
+        for x in pre:
+            env[x.targets[0].id] = Sub().visit(copy.deepcopy(x.value))
+        t = Sub().visit(copy.deepcopy(st.body[k].test))
+        neg = t.operand if isinstance(t, ast.UnaryOp) and isinstance(t.op, ast.Not) else ast.UnaryOp(op=ast.Not(), operand=t)
+        out = ast.While(test=neg, body=pre + st.body[k + 1:], orelse=[])
+        ast.copy_location(out, st)
+        ast.fix_missing_locations(out)
+        out._orig = st
         return out
 
     def st_While(self, st, frame):
